@@ -108,3 +108,9 @@ package store
 //@   ensures [C16] every_listed_url_examined: idLookups == old(idLookups) + old(len(attachments))
 //@   loop 1
 //@     invariant [C16] one_lookup_per_url: idLookups == old(idLookups) + #idx && 0 <= #idx && #idx <= len(attachments) && len(attachments) == old(len(attachments))
+
+// C16: the configured media handler is there once the upload endpoints are registered. (store.Files.FinishUpload has
+// no contract on purpose: on failure the adapters return no record, and callers must not count on one.)
+//@ func (s PersistentStorageInterface) GetMediaHandler() (mh media.Handler)
+//@   modifies nothing
+//@   ensures [C16] mh != nil
